@@ -23,29 +23,59 @@ BUILD_VARIANTS = {
     "c07_asserts": C.VARIANTS["san"] + ["-fsanitize=float-cast-overflow"],
     "c07_ndebug": C.VARIANTS["san_ndebug"] + ["-fsanitize=float-cast-overflow"],
 }
+# Proofs/IncrNetTopology (used by the IncrNetModel no-fault theorems) imports the generated orientation tables
+GEN = ["OrientTables"]
 PARTIAL = [
     "proved (Lean, every input of the stated domain, both assert-enabled and NDEBUG): no signed overflow, no failed "
-    "assertion, no division by zero and termination for RowLegalizer getCost/push/getPlacement (rowleg_no_fault, "
-    "rowleg_session_no_fault, rowleg_terminates), computeSubdivisions (subdivisions_no_fault), the Abacus cost arithmetic "
-    "of evaluatePlacement/placeCell (abacus_no_fault) and the obstacle rectangles fed to Row::freespace "
-    "(freespace_no_fault); the checked value equals the unbounded model's value",
+    "assertion, no division by zero, no out-of-range index and termination for the *modelled integer cores*: RowLegalizer "
+    "getCost/push/getPlacement (rowleg_no_fault, rowleg_session_no_fault, rowleg_terminates), computeSubdivisions "
+    "(subdivisions_no_fault), the Abacus cost arithmetic of evaluatePlacement/placeCell (abacus_no_fault), the obstacle "
+    "rectangles fed to Row::freespace (freespace_no_fault), TetrisLegalizer::run with LegalizerBase::closestRow "
+    "(tetris_no_fault, tetris_place_no_fault: targets up to 2^29 as placeGlobal may hand over), Circuit::pinX/YOffset "
+    "(pin_offset_no_fault), IncrNetModel x/yTopology + build + any updateCellPos sequence (incrnet_no_fault, "
+    "incrnet_update_no_fault), DetailedPlacement canInsert/canSwap/positionOnInsert/positionsOnSwap/insert/swap along any "
+    "accepted history (detplace_no_fault, detplace_history_no_fault), index safety + loop termination of "
+    "Transportation1d::assign (transp1d_no_fault); the checked value equals the unbounded model's value.  Each of these "
+    "cores is tied to the C++ two-sidedly: in-domain 2^22 streams (same values, never a fault) and beyond-domain streams up "
+    "to 2^31 where the checked model must predict exactly which cases UBSan/assert kill (row legalizer, subdivisions, "
+    "Tetris, IncrNetModel, DetailedPlacement; the 1-D transport by an in-domain stream on unit-supply full lines)",
+    "transp_costs_fit is PARTIAL (transp_costs_fit_partial): at every state satisfying the invariants C13's termination "
+    "proof establishes before each updateTree call, with stored costs in [0, C] and 2C <= INT_MAX (costsFromIntegers scales "
+    "to C <= INT_MAX/(4 nbSinks)), every `movingCost + sendingCost_` of updateTree and every `sendingCost_[i] + cost` of "
+    "bestSink is a representable int although the labels start at INT_MAX; not re-proved through a checked twin of the "
+    "whole run (the reduction to these states is C13's), the float side of costsFromIntegers is sanitizer-monitored, and "
+    "the tie to the C++ is C13's correspondence stream, not a C07 one",
     "NOT proved, monitored by the sanitized harness only (two builds, ASan+UBSan+float-cast-overflow, forked child per "
     "case with timeout): every other part of placeGlobal/legalize/placeDetailed - Eigen (conjugate gradients), "
-    "boost::polygon (Row::freespace), lemon (network simplex), iostream, all float->int conversions, the density "
-    "legalizer and transportation solvers (fixed-point cost scaling), TetrisLegalizer, DetailedPlacement, IncrNetModel, "
-    "RowReordering and the glue between the modelled cores (DESIGN's tetris/transp/incrnet/detplace theorems are not built)",
+    "boost::polygon (Row::freespace), lemon (network simplex), iostream, all float->int conversions (DensityLegalizer "
+    "targets, costsFromIntegers fixed-point scaling, exportPlacement, computeCellOrder keys), the density legalizer and the "
+    "rest of the general transportation solver (long long quantities, queues), signed overflow of the long long "
+    "position/slope arithmetic of Transportation1d (only its index safety and termination are proved), the search loops of "
+    "place_detailed.cpp (swap / shift / reordering candidates, RowReordering) around the modelled DetailedPlacement "
+    "primitives, the DetailedPlacement constructor as a whole (only its two arithmetic leaves locate/linkRow have checked "
+    "twins), AbacusLegalizer beyond its cost arithmetic, Legalizer::run glue, and the glue between the modelled cores",
+    "tetris_no_fault assumes rows of positive height: with rowHeight() <= 0 getPossibleIntervals/instanciateCell recurse "
+    "without bound in the C++ (Circuit::check rejects such rows; the model's fuel would hide it)",
     "out-of-bounds accesses are only observable through ASan redzones; std::vector::operator[] inside an allocation's "
     "slack is not detected (no _GLIBCXX_ASSERTIONS build)",
     "termination outside the modelled cores is observed as 'no case exceeds the timeout (re-run once with 8x the budget "
-    "before being reported)', bounded in the code by maxNbSteps, nbPasses, CG maxIterations; not proved.  Proposed known "
-    "finding KF-C07-1: TransportationSuccessiveShortestPath (general rough-legalization transport) moves one demand unit "
-    "per augmentation on some instances, so placeGlobal's running time grows with the cell areas (12 min for 9 cells at "
-    "2^22 without sanitizers); it terminates; classified by the child's stack when the budget expires",
+    "before being reported)', bounded in the code by maxNbSteps, nbPasses, CG maxIterations; not proved.  Known finding "
+    "KF-C07-1: TransportationSuccessiveShortestPath (general rough-legalization transport) moves one demand unit per "
+    "augmentation on some instances, so placeGlobal's running time grows with the cell areas (12 min for 9 cells at 2^22 "
+    "without sanitizers); it terminates; classified by the child's stack when the budget expires",
     "rowleg theorems assume at most 2^15 cells per row segment (coarse bound on the 64-bit cost accumulator: 2^16 queue "
-    "entries x 2^46 per term); longer rows are exercised by the 2^22 stream only",
+    "entries x 2^46 per term); longer rows are exercised by the 2^22 stream only; incrnet theorems assume fewer than 2^31 "
+    "nets (int net indices)",
+    "flow generator: classic kinds (small / scaled to 2^22 / wide rows) plus dense kinds (unit-grid circuits with row height "
+    "1-2 and cells of area 1-4 at densities up to exactly 100 % and above, standard-cell grids of 2-40 rows with up to 250 "
+    "(thorough: 400) cells so that the density grid has several bins in both directions, tiny circuits at the origin and "
+    "against the +-2^22 limits); every rough-legalization variant (1-D transport on/off, six cost models, line/diag/square "
+    "reoptimization sizes 1..64/1..64/1..8, nbSteps 0..3, binSize 1..25) is drawn and counted in the distribution; circuits "
+    "with more than ~400 cells, more than 40 rows or nets above 40 pins are not generated",
     "parameter box: the purely numerical knobs are kept at CG tolerance >= 1e-6, approximation/cutoff distance >= 0.1; "
     "penalty.updateFactor up to 2 with maxNbSteps = 400 is inside the box and is what overflows the float penalty "
-    "(fixes/c07-global-nonfinite-placement.diff turns the resulting NaN into an exception)",
+    "(fix ff24028 turns the resulting NaN into an exception; fixes/c07-global-out-of-range-placement.diff does the same "
+    "for finite divergence of the float solver on tiny designs far from the origin)",
 ]
 ASSUMPTIONS = [
     "C++ int is 32-bit two's complement, long long 64-bit (g++ 12, x86-64)",
@@ -53,13 +83,22 @@ ASSUMPTIONS = [
     "two-sided differential: in-domain streams (never a fault, same values) and beyond-domain streams where the model "
     "must predict exactly which cases UBSan/assert kill",
     "std::priority_queue modelled as a sorted list (as C12)",
+    "the DetailedPlacement streams build the state with the unbounded model of the constructor (the harness only hands over "
+    "legal placements, whose constructor sums `x + width <= row.maxX` cannot overflow) and run the checked queries/moves on it",
+    "TetrisLegalizer targets up to 2^29: the bound fixes/c07-global-out-of-range-placement.diff (2^28 before blending with "
+    "exportBlending in [-0.5, 1.5]) guarantees for what placeGlobal exports",
 ]
-LEVEL_TEXT = ("Lean 4 no-fault theorems over checked (typed-arithmetic) models of the integer cores, tied to the C++ by "
-              "correspondence streams at 2^22 magnitude and beyond; everything else in the three entry points is monitored by "
-              "an end-to-end fault oracle (forked child per case, ASan+UBSan, assertion-enabled and NDEBUG builds)")
+LEVEL_TEXT = ("Lean 4 no-fault theorems over checked (typed-arithmetic) models of the integer cores (row legalizer, Abacus cost, "
+              "Tetris legalizer, computeSubdivisions, freespace rectangles, pin offsets, IncrNetModel, DetailedPlacement "
+              "primitives; index safety of the 1-D transportation), each tied to the C++ by correspondence streams at 2^22 "
+              "magnitude and by beyond-domain streams where the model predicts the sanitizer kills; everything else in the "
+              "three entry points (floating point, Eigen/boost/lemon, density legalizer, search loops, glue) is monitored by an "
+              "end-to-end fault oracle (forked child per case, ASan+UBSan+float-cast-overflow, assertion-enabled and NDEBUG "
+              "builds) over classic, 2^22-scaled, unit-grid, dense-grid and tiny circuits")
 LEVEL_NOTE = ("Trusted: Lean kernel (propext/Classical.choice/Quot.sound), hand-written checked models (differential tie), "
               "the sanitizers as the observer of undefined behaviour outside the modelled cores.")
-TECHNIQUE = "Lean 4 proof (invariant over push sequences, checked arithmetic) + sanitizer fault oracle on two builds"
+TECHNIQUE = ("Lean 4 proof (checked arithmetic = unbounded model on the domain, domain invariants preserved) + two-sided "
+             "differential streams + sanitizer fault oracle on two builds")
 
 
 def _run_variant(exe, variant, tier, seed, outdir, replay):
@@ -101,6 +140,13 @@ def custom_main(a, seed):
     for k, v in BUILD_VARIANTS.items():
         C.VARIANTS[k] = v
     problems, notes = [], []
+    gen_info = {}
+    try:
+        import translate
+        with C.flock("lake-gen"):
+            gen_info = translate.run(GEN)
+    except Exception as e:  # TranslateError or anything the generator raises: a broken tie
+        problems.append({"kind": "translator", "detail": str(e)})
     kf = C.load_known_findings()
     open_kf = {f["id"]: f for f in kf.get("findings", []) if f["property"] == PROP and f.get("status", "open") == "open"}
 
@@ -257,7 +303,7 @@ def custom_main(a, seed):
                                               "(evaluations = executions over both, distinct_nontrivial = per build)",
         "samples": samples[:8] or ["<none>"],
         "traces_validated_against_impl": corr_lines,
-        "distribution": dist, "partial_clauses": PARTIAL, "known_findings_hit": kf_hits, "generated": {},
+        "distribution": dist, "partial_clauses": PARTIAL, "known_findings_hit": kf_hits, "generated": gen_info,
         "exhaustive": False,
         "timing": {"driver_build_s": round(t_drv, 1), "theorem_build_s": round(t_thm, 1)},
         "notes": notes + sum([st.get("notes", []) for st in stats_all.values()], []),
